@@ -130,6 +130,13 @@ def named_cases():
                      'print(settings.x, s2.x);\nprint(s2.bump());\nimport self.settings as s3;\nprint(s3.x, s2.x, settings.x);\n'
                      'import self.settings:{x};\nprint(x);\n')},
         ['settings body', '10 10', '99 10', '11', '11 10 99', '11']))
+    out.append(('imported module fails to compile: failing status, nothing after the import runs', {
+        'bad.lay': 'let x = ;\n', 'main.lay': 'print("before");\nimport self.bad;\nprint("after");\n'},
+        ['before', '<outcome exit:1>']))
+    out.append(('imported module fails to resolve: failing status', {
+        'bad.lay': 'print("bad body");\nexport let y = never_declared;\n',
+        'main.lay': 'print("before");\nimport self.bad:{y};\nprint("after");\n'},
+        ['before', '<outcome exit:1>']))
     out.append(('module named like its package', {
         'q.lay': 'print("q");\nexport let v = 1;\n', 'q/q.lay': 'print("q.q");\nexport let v = 2;\n',
         'main.lay': 'import self.q.q as inner;\nimport self.q;\nprint(q.v, inner.v);\n'},
